@@ -558,6 +558,86 @@ theorem clean_result (p : List Char) :
 example : cleanFn "a/./b/../../..//c".toList = "../c".toList ∧ cleanFn "foo/..".toList = ".".toList ∧
     cleanFn "/a/../..".toList = "/".toList := by decide
 
+/-! #### `file_name`, `file_stem`, `extension`, `without_extension`, `join` -/
+
+/-- **stem and extension recompose the file name**: whenever a path has an extension,
+`file_stem(p) + "." + extension(p) = file_name(p)`, and the extension contains no dot -/
+theorem stem_dot_extension (p e : List Char) (h : extensionOf p = some e) :
+    ∃ f s, fileName p = some f ∧ fileStem p = some s ∧ f = s ++ '.' :: e ∧ '.' ∉ e := by
+  unfold extensionOf at h
+  cases hf : fileName p with
+  | none => simp [hf] at h
+  | some f =>
+    simp only [hf, Option.bind_some] at h
+    unfold fileStem
+    simp only [hf, Option.bind_some]
+    unfold rsplitFileAtDot at h ⊢
+    split at h
+    · simp at h
+    · rename_i hne
+      simp only [hne, if_false]
+      cases hs : splitLastDot f with
+      | none => simp [hs] at h
+      | some ba =>
+        obtain ⟨b, a⟩ := ba
+        simp only [hs] at h ⊢
+        split at h
+        · simp at h
+        · rename_i hb
+          simp only [Option.bind_some, Option.some.injEq] at h
+          subst h
+          have hspec := splitLastDot_spec f b a hs
+          refine ⟨f, b, rfl, ?_, hspec.1, hspec.2⟩
+          simp [hb]
+
+/-- **without an extension the stem is the whole name**: `file_stem(p) = file_name(p)` exactly when
+`extension(p)` fails on a path that has a file name — no dot, only a leading dot (`.bashrc`), or `..` -/
+theorem stem_is_name_without_extension (p f : List Char) (hf : fileName p = some f)
+    (he : extensionOf p = none) : fileStem p = some f := by
+  unfold extensionOf at he
+  unfold fileStem
+  simp only [hf, Option.bind_some] at he ⊢
+  unfold rsplitFileAtDot at he ⊢
+  split
+  · rfl
+  · rename_i hne
+    simp only [hne, if_false] at he
+    cases hs : splitLastDot f with
+    | none => simp
+    | some ba =>
+      obtain ⟨b, a⟩ := ba
+      simp only [hs] at he ⊢
+      split
+      · rfl
+      · rename_i hb; simp [hb] at he
+
+/-- **`without_extension` is the parent joined with the stem**, and **`join` is `PathBuf::push`
+left to right**: an absolute operand replaces what came before, otherwise exactly one `/` separates
+the operands unless the left one already ends in one (or is empty) -/
+theorem without_extension_and_join (p w : List Char) (h : withoutExtension p = some w) :
+    ∃ par stem, parentStr p = some par ∧ fileStem p = some stem ∧ w = joinPaths par [stem] := by
+  unfold withoutExtension at h
+  split at h
+  · rename_i par stem hp hs
+    exact ⟨par, stem, hp, hs, by simpa [joinPaths] using (Option.some.inj h).symm⟩
+  · cases h
+
+theorem join_absolute_replaces (base w : List Char) (rest : List Char) (hw : w = '/' :: rest) :
+    joinPaths base [w] = w := by
+  subst hw; simp [joinPaths, pushStr]
+
+/-- the two component scanners (with and without offsets) see the same components -/
+theorem scanners_agree (p : List Char) : (componentsPos p).map Prod.fst = components p :=
+  componentsPos_fst p
+
+/-- non-vacuity: the README's examples -/
+example : fileName "/foo/bar.txt".toList = some "bar.txt".toList ∧ extensionOf "/foo/bar.txt".toList = some "txt".toList ∧
+    fileStem "/foo/bar.txt".toList = some "bar".toList ∧ parentStr "/foo/bar.txt".toList = some "/foo".toList ∧
+    withoutExtension "/foo/bar.txt".toList = some "/foo/bar".toList ∧
+    joinPaths "foo/bar".toList ["baz".toList] = "foo/bar/baz".toList ∧
+    extensionOf ".bashrc".toList = none ∧ fileStem ".bashrc".toList = some ".bashrc".toList ∧
+    extensionOf "foo.".toList = some [] ∧ parentStr "/".toList = none := by decide
+
 end Clean
 
 end Just.Props.C04
